@@ -134,7 +134,7 @@ func runC13(c *Ctx) {
 	minPar := fn.Params[1]
 	// term classification
 	term := func(fr *Frame, s *Sym) string {
-		s = deepStrip(p.substFrame(fr, s))
+		s = deepStrip(p.expandSym(p.substFrame(fr, s), 0)) // quotient hidden in an expression helper
 		if k, ok := symConstInt(s); ok && k == 0 {
 			return "0"
 		}
